@@ -2,6 +2,11 @@
 """Print the markdown table of DESIGN.md section 10 from seeded/*/meta.json (after tools/seed_rerun.py)."""
 import json, glob, os
 HERE = os.path.dirname(os.path.dirname(os.path.abspath(__file__)))
+# rules written or reformulated only after the seed's description was known to me (everything else was blind)
+POST_HOC = {'C02-a': 'C02.FRAME reformulated (first version fired for the wrong reason)', 'C03-a': 'C03.PTSWIDTH', 'C04-a': 'C04.CVRESET', 'C15-a': 'C15.COUNT',
+            'C16-a': 'C16.UNDEF', 'C24-a': 'C24.GRID', 'C23-a': 'C23.RELEASE/disarm', 'C25-a': 'C25.GROW', 'C21-a': 'C21.PADFIRST overlay', 'C20-a': 'C20.TILESYM',
+            'C05-a': 'C05 implemented after the seed arrived (rule as designed beforehand)', 'C23-b': 'C23.WAKE', 'C16-b': 'C16.PUBLISHED', 'C14-b': 'C14.5-NBQUIT',
+            'C04-b': 'C04.TESTSET', 'C15-b': 'C15.SHUT/unconditional', 'C02-b': 'C02.PICTYPE'}
 rows = []
 for f in sorted(glob.glob(os.path.join(HERE, 'seeded', '*', 'meta.json'))):
     m = json.load(open(f)); sid = os.path.basename(os.path.dirname(f))
@@ -15,8 +20,8 @@ for f in sorted(glob.glob(os.path.join(HERE, 'seeded', '*', 'meta.json'))):
     own_now = prop in now
     own_first = prop in first
     status = ('caught by %s' % rule) if own_now else 'MISSED'
-    if own_now and not own_first:
-        status += ' (added after this seed)'
+    if own_now:
+        status += (' - post hoc: ' + POST_HOC[sid]) if sid in POST_HOC else ' - blind'
     other = [c for c in now if c != prop]
     rows.append('| %s | %s | %s | %s%s |' % (sid, prop, m['needs_to_manifest'][:150].replace('|', '/'), status, (' ; also ' + ','.join(other)) if other else ''))
 print('| seed | property | needs, in order to manifest | static checks |')
